@@ -23,10 +23,10 @@ ALL_FEATURES = ["err", "rty", "stall", "lock", "cti", "bte"]
 def gen_arb(rng, tier, idx=None, soak_in_quick=True):
     n = rng.choice([1, 2, 2, 3, 3, 4, 4, 5, 6, 7, 8, 9]) if rng.random() < 0.94 else rng.choice([12, 16, 17])
     soak = None
-    if idx is not None and (idx % (480 if tier == "quick" else 600)) in (3, 5) and (tier != "quick" or soak_in_quick):
-        # soak scenarios (one of each per quick run, ten per thorough run): anything that counts cycles or transfers
+    if idx is not None and (idx % (480 if tier == "quick" else 600)) in (3, 5, 9) and (tier != "quick" or soak_in_quick):
+        # soak scenarios (two unanswered transfers and one burst per quick run, ten times that per thorough run): anything that counts cycles or transfers
         # behind the scenes (a watchdog, a fairness time-out) needs tens of thousands of cycles to show
-        soak = "soak_unanswered" if idx % (480 if tier == "quick" else 600) == 3 else "soak_burst"
+        soak = "soak_unanswered" if idx % (480 if tier == "quick" else 600) in (3, 9) else "soak_burst"
         if tier == "quick" and soak_in_quick == "unanswered" and soak != "soak_unanswered":
             soak = None
     if soak is not None:
@@ -322,6 +322,8 @@ def run_arb_case(case, judged):
 
     from vmon.simkit import reset_plan, drive_reset
     resets = reset_plan(case["cycles"])
+    if str(case.get("scenario", "")).startswith("soak"):
+        resets = frozenset()       # the soak scenarios exist for long *uninterrupted* conditions
 
     async def bench(ctx):
         for c in range(case["cycles"]):
